@@ -379,6 +379,27 @@ Theorem C10_share_vs_cut_resolver_atoms : forall C D L aa orig fdC BC fdD BD,
          ~ In key CutModel.reserved -> key <> S "hcount" -> key <> S "contraction" ->
          node_get g' y key = Some v /\ node_get gd (ShareCut.pi_cut C D orig y) key = Some v).
 Proof. exact ShareCutTotal.share_vs_cut_resolver_atoms. Qed.
+(** membership: the atom of the squashed graph that stands for an atom of the molecule lists the coarse node of
+    EVERY copy of it (the shared atom belongs to all the fragments that share it) *)
+Theorem C10_share_vs_cut_resolver_membership : forall C D L aa orig fdC BC fdD BD,
+  CutModel.wf_cut C -> CutModel.templates_ok C fdC -> CutModel.is_base C BC -> CopyProofs.wf_dict fdC ->
+  CutModel.wf_cut D -> CutModel.templates_ok D fdD -> CutModel.is_base D BD ->
+  (aa = true -> forall x, In x (CutModel.flat C) ->
+     (exists e, aget (S "element") (CutModel.payload C x) = Some e) /\
+     exists h, aget (S "hcount") (CutModel.payload C x) = Some (VInt h)) ->
+  (aa = true -> forall x, In x (CutModel.flat D) ->
+     (exists e, aget (S "element") (CutModel.payload D x) = Some e) /\
+     exists h, aget (S "hcount") (CutModel.payload D x) = Some (VInt h)) ->
+  ShareCut.expands C D L orig ->
+  exists gs fgs gd fgd,
+    (st <- GraphOps.resolve_disconnected (fdmap (bangify L) fdC) BC ;;
+     GraphOps.bonding_step true aa BC (fst st) (snd st)) = Ok (gs, fgs) /\
+    (st <- GraphOps.resolve_disconnected fdD BD ;; GraphOps.bonding_step true aa BD (fst st) (snd st)) = Ok (gd, fgd) /\
+    (hnum_g gs -> forall g', squash_atoms gs = Ok g' ->
+       forall x, In x (CutModel.flat C) -> exists y l, In y (node_keys g') /\
+         ShareCut.pi_cut C D orig y = CutModel.phi D (orig x) /\
+         node_get g' y (S "fragid") = Some (VList l) /\ In (VInt (Z.of_nat (CutModel.owner C x))) l).
+Proof. exact ShareCutTotal.share_vs_cut_resolver_membership. Qed.
 Theorem C10_same_payload_example : ShareCutTotal.same_payload ShareCutExamples.exC ShareCutExamples.exD ShareCutExamples.ex_orig.
 Proof. exact ShareCutExamples.ex_same_payload. Qed.
 (** the extra hypotheses hold on the example of C10_share_vs_cut_resolver_nonvacuous, at both levels *)
@@ -467,4 +488,5 @@ Print Assumptions C10_wf_dict_decidable.
 Print Assumptions C10_squash_keeps_attrs.
 Print Assumptions C10_share_vs_cut_resolver_atoms.
 Print Assumptions C10_same_payload_example.
+Print Assumptions C10_share_vs_cut_resolver_membership.
 Print Assumptions C10_share_vs_cut_resolver_total_hypotheses.
